@@ -330,6 +330,8 @@ fn inputs(target: &str, large: bool) -> Vec<String> {
             for _ in 0..(if large { 6 } else { 5 }) { let mut next = Vec::new(); for s in &frontier { for k in steps { next.push(format!("{}{}", s, k)); } } seqs.extend(next.iter().cloned()); frontier = next; }
             seqs.retain(|s| s.ends_with('c') || s.ends_with('e'));
             let mut v = Vec::new();
+            // one expanded name used twice: inside the scope of the declaration it relies on and outside it, as element and as attribute
+            for d in ["p", "d"] { for second in ["eo", "ei", "ao", "ai", "an"] { for order in ["after", "before"] { for target in ["root", "r"] { v.push(format!("N|{}|{}|{}|{}", d, second, order, target)); } } } }
             for a in decls { for m in decls { for s in &seqs { v.push(format!("{}|{}|{}", a, m, s)); } } }
             v
         }
@@ -1093,6 +1095,19 @@ mod bounded {
         for l in ["UTF-8", "utf-8", "ISO-8859-1", "windows-1252", "US-ASCII", "foo", "UTF-16", "UTF-16LE", "UTF-32", "EBCDIC-CP-US", "x-user-defined", "", "replacement", "UTF-7", "Shift_JIS", "KOI8-R"] {
             v.push(format!("B|{}", l));
         }
+        // totality ("T|doc": any result but a panic): a construct left open, followed by ASCII / 2- / 3- / 4-byte characters
+        // in runs of many lengths (error paths that cut, index or slice the offending text), in content and in an attribute value
+        for open in ["&a", "&", "&#", "&#x", "&#x4", "<!--", "<![CDATA[", "<?p ", "<b x=\"", "</", "<", "]]>", "&lt", "<!DOCTYPE "] {
+            for pad in ['x', '\u{e9}', '\u{20ac}', '\u{1f600}'] {
+                for n in [0usize, 1, 2, 7, 15, 16, 17, 31, 32, 33, 40, 63, 64, 65, 100, 300] {
+                    let run: String = std::iter::repeat(pad).take(n).collect();
+                    v.push(format!("T|<a>{}{}</a>", open, run));
+                    v.push(format!("T|<a>{}{}", open, run));
+                    v.push(format!("T|<a x=\"{}{}\"/>", open, run));
+                    v.push(format!("T|<a>{}{}{};</a>", run, open, run));
+                }
+            }
+        }
         v
     }
 
@@ -1102,6 +1117,16 @@ mod bounded {
             let bytes = format!("<?xml version=\"1.0\" encoding=\"{}\"?><a>\u{e9}</a>", doc).into_bytes();
             let r = std::panic::catch_unwind(|| { let mut xot = Xot::new(); xot.parse_bytes(&bytes).is_ok() });
             return match r { Err(_) => Some(format!("parse_bytes panics on a document declaring encoding {:?}", doc)), Ok(_) => None };
+        }
+        if kind == "T" {
+            let d = doc.to_string();
+            let r = std::panic::catch_unwind(move || {
+                let mut xot = Xot::new();
+                let _ = xot.parse(&d).is_ok();
+                let _ = xot.parse_fragment(&d).is_ok();
+                let _ = xot.parse_bytes(d.as_bytes()).is_ok();
+            });
+            return match r { Err(_) => Some(format!("a parse entry point panics on {:?}", doc)), Ok(_) => None };
         }
         // the fragment parser must not panic on anything either, and must refuse stray close tags
         let fr = std::panic::catch_unwind(|| { let mut xot = Xot::new(); xot.parse_fragment(doc).is_ok() });
@@ -1368,6 +1393,10 @@ mod deepeq {
             "<e><a/><b/></e>", "<e><b/><a/></e>", "<e><a/></e>", "<e><a/><b/><a/></e>", "<e><a x=\"1\" y=\"2\"/></e>", "<e><a y=\"2\" x=\"1\"/></e>", "<e><a y=\"2\" x=\"1\" z=\"3\"/></e>", "<e><a><b/></a></e>", "<e><a/><b/><!--c--></e>",
             "<p:e xmlns:p=\"urn:1\"/>", "<q:e xmlns:q=\"urn:1\"/>", "<e xmlns=\"urn:1\"/>", "<p:e xmlns:p=\"urn:2\"/>", "<e xmlns:p=\"urn:1\"/>",
             "<e xmlns:p=\"urn:1\" p:x=\"1\"/>", "<e xmlns:q=\"urn:1\" q:x=\"1\"/>", "<e xmlns:p=\"urn:2\" p:x=\"1\"/>", "<e xmlns:p=\"urn:1\" p:x=\"1\" x=\"1\"/>", "<e xmlns:p=\"urn:1\" x=\"1\" p:x=\"1\"/>",
+            // one a proper prefix of the other (as a child sequence, as a text sequence, as an element sequence)
+            "<e>t<a/>u</e>", "<e>t<a/></e>", "<e><a/>t</e>",
+            // fragments ("F:"): several nodes directly under the document node
+            "F:<a/>", "F:<a/><b/>", "F:<a/><b/>t", "F:t", "F:t<a/>", "F:<a/><!--c--><b/>", "F:<a/>t<b/>u",
         ]
     }
 
@@ -1391,14 +1420,31 @@ mod deepeq {
         xot.children(n).filter(|c| !xpath || xot.is_element(*c) || xot.is_text(*c)).map(|c| canon(xot, c, xpath)).collect::<Vec<_>>().join(";")
     }
 
+    fn load(xot: &mut Xot, d: &str) -> Option<Node> {
+        if let Some(f) = d.strip_prefix("F:") { xot.parse_fragment(f).ok() } else { xot.parse(d).ok() }
+    }
+    /// the element structure below (or at) n, everything else dropped
+    fn elems(xot: &Xot, n: Node) -> String {
+        let inner = xot.children(n).map(|c| elems(xot, c)).filter(|s| !s.is_empty()).collect::<Vec<_>>().join(";");
+        match xot.value(n) {
+            xot::Value::Element(_) => { let c = canon(xot, n, false); let head = c.split('[').next().unwrap_or("").to_string(); format!("{}[{}]", head, inner) }
+            xot::Value::Document => inner,
+            _ => String::new(),
+        }
+    }
+
     pub fn check(input: &str) -> Option<String> {
         let (i, j) = input.split_once(' ')?;
         let (i, j): (usize, usize) = (i.parse().ok()?, j.parse().ok()?);
         let ds = docs();
         let mut xot = Xot::new();
-        let ra = xot.parse(ds.get(i)?).ok()?;
-        let rb = xot.parse(ds.get(j)?).ok()?;
-        for (what, a, b) in [("documents", ra, rb), ("document elements", xot.document_element(ra).ok()?, xot.document_element(rb).ok()?)] {
+        let ra = load(&mut xot, ds.get(i)?)?;
+        let rb = load(&mut xot, ds.get(j)?)?;
+        let mut pairs = vec![("documents", ra, rb)];
+        if let (Ok(ea), Ok(eb)) = (xot.document_element(ra), xot.document_element(rb)) {
+            if !ds[i].starts_with("F:") && !ds[j].starts_with("F:") { pairs.push(("document elements", ea, eb)); }
+        }
+        for (what, a, b) in pairs {
             let same = canon(&xot, a, false) == canon(&xot, b, false);
             if xot.deep_equal(a, b) != same { return Some(format!("deep_equal({}, {}) on the {} is {}, canonical forms are {}", ds[i], ds[j], what, !same, if same { "equal" } else { "different" })); }
             if xot.deep_equal(a, b) != xot.deep_equal(b, a) { return Some(format!("deep_equal({}, {}) on the {} is not symmetric", ds[i], ds[j], what)); }
@@ -1407,6 +1453,12 @@ mod deepeq {
             let same_c = kids(&xot, a, false) == kids(&xot, b, false);
             if xot.deep_equal_children(a, b) != same_c { return Some(format!("deep_equal_children({}, {}) on the {} is {}, child sequences are {}", ds[i], ds[j], what, !same_c, if same_c { "equal" } else { "different" })); }
             if xot.advanced_deep_equal(a, b, |_| true, |x, y| x == y) != same { return Some(format!("advanced_deep_equal({}, {}) with the trivial filter disagrees with canonical forms", ds[i], ds[j])); }
+            // filters that drop the compared nodes themselves: text nodes only / elements only
+            let texts = |n: Node| -> Vec<String> { xot.descendants(n).filter_map(|d| xot.text_str(d).map(|t| t.to_string())).collect() };
+            let same_t = texts(a) == texts(b);
+            if xot.advanced_deep_equal(a, b, |n| xot.is_text(n), |x, y| x == y) != same_t { return Some(format!("advanced_deep_equal({}, {}) on the {} with a text-only filter is {}, the text sequences are {}", ds[i], ds[j], what, !same_t, if same_t { "equal" } else { "different" })); }
+            let same_e = elems(&xot, a) == elems(&xot, b);
+            if xot.advanced_deep_equal(a, b, |n| xot.is_element(n), |x, y| x == y) != same_e { return Some(format!("advanced_deep_equal({}, {}) on the {} with an elements-only filter is {}, the element structures are {}", ds[i], ds[j], what, !same_e, if same_e { "equal" } else { "different" })); }
         }
         // string_value: concatenation of descendant text in document order
         let text: String = xot.descendants(ra).filter_map(|n| xot.text_str(n)).collect();
@@ -1819,12 +1871,55 @@ fn c09_qname_default_ns() -> Option<String> {
 }
 
 // (C10) create_missing_prefixes repairs a tree whose names lost their declarations, however often it is repeated
+// (C10) one expanded name {urn:A}k used twice: as a child of m, where m declares urn:A (as prefix p or as the default
+// namespace), and a second time - as an element outside that scope (eo) or inside it (ei), as an attribute outside
+// (ao: on a no-namespace element under r), on the first k itself (ai) or on a sibling of k inside the scope (an) -
+// met by a document-order walk before or after the first use; then create_missing_prefixes (twice)
+#[allow(dead_code)]
+fn c10_same_name_twice(d: &str, second: &str, order: &str, target: &str) -> Option<String> {
+    let mut xot = Xot::new();
+    let ua = xot.add_namespace("urn:A");
+    let doc = format!("<r><m{}/></r>", if d == "p" { " xmlns:p=\"urn:A\"" } else { " xmlns=\"urn:A\"" });
+    let root = xot.parse(&doc).ok()?;
+    let r = xot.document_element(root).ok()?;
+    let m = xot.first_child(r)?;
+    let k = xot.add_name_ns("k", ua);
+    let first = xot.new_element(k);
+    xot.append(m, first).ok()?;
+    let plain = xot.add_name("plain");
+    let place = |xot: &mut Xot, parent: xot::Node, n: xot::Node| -> Option<()> { if order == "before" { xot.prepend(parent, n).ok() } else { xot.append(parent, n).ok() } };
+    match second {
+        "eo" => { let e = xot.new_element(k); place(&mut xot, r, e)?; }
+        "ei" => { let e = xot.new_element(k); place(&mut xot, m, e)?; }
+        "ao" => { let e = xot.new_element(plain); xot.attributes_mut(e).insert(k, "v".to_string()); place(&mut xot, r, e)?; }
+        "ai" => { xot.attributes_mut(first).insert(k, "v".to_string()); }
+        "an" => { let ka = xot.add_name_ns("sib", ua); let e = xot.new_element(ka); xot.attributes_mut(e).insert(k, "v".to_string()); place(&mut xot, m, e)?; }
+        _ => return None,
+    }
+    let what = format!("{} with {{urn:A}}k used a second time ({}, {} the first use)", doc, second, order);
+    let names = |xot: &Xot| -> Vec<String> { xot.descendants(root).filter(|n| xot.is_element(*n)).map(|n| { let (l, u) = xot.name_ns_str(xot.element(n).unwrap().name());
+        let mut at: Vec<String> = xot.attributes(n).iter().map(|(k, v)| { let (l, u) = xot.name_ns_str(k); format!("{{{}}}{}={}", u, l, v) }).collect(); at.sort();
+        format!("{{{}}}{}[{}]", u, l, at.join(",")) }).collect() };
+    let before = names(&xot);
+    let tnode = if target == "root" { root } else { r };
+    for round in 0..2 {
+        let res = std::panic::catch_unwind(std::panic::AssertUnwindSafe(|| xot.create_missing_prefixes(tnode)));
+        match res { Err(_) => return Some(format!("{}: create_missing_prefixes panics", what)), Ok(Err(e)) => return Some(format!("{}: create_missing_prefixes fails: {:?}", what, e)), Ok(Ok(())) => {} }
+        if names(&xot) != before { return Some(format!("{}: an expanded name or attribute changed (call {})", what, round + 1)); }
+        let s = match xot.to_string(root) { Ok(s) => s, Err(e) => return Some(format!("{}: serialisation still fails after the repair (call {}): {:?}", what, round + 1, e)) };
+        let back = match xot.parse(&s) { Ok(b) => b, Err(e) => return Some(format!("{}: {:?} does not reparse: {:?}", what, s, e)) };
+        if !xot.deep_equal(root, back) { return Some(format!("{}: {:?} reparses to a different tree", what, s)); }
+    }
+    None
+}
+
 #[allow(dead_code)]
 fn c10_missing_prefixes(input: &str) -> Option<String> {
     // input: "<decl on a>|<decl on m>|<steps>": decl letters: 0 = xmlns:n0="urn:A", 1 = xmlns:n1="urn:A", p = xmlns:p="urn:A", d = xmlns="urn:A";
     // steps: x / y / z = append a new element in urn:X / urn:Y / urn:Z under m; a = attribute in urn:W on m; c = create_missing_prefixes(root);
     // e = create_missing_prefixes(m); v = move the first child of m (an element in urn:A using the declarations above) under a fresh element
     let f: Vec<&str> = input.split('|').collect();
+    if f.len() == 5 && f[0] == "N" { return c10_same_name_twice(f[1], f[2], f[3], f[4]); }
     if f.len() != 3 { return None; }
     let decl = |d: &str| -> String { d.chars().map(|c| match c { '0' => " xmlns:n0=\"urn:A\"", '1' => " xmlns:n1=\"urn:A\"", 'p' => " xmlns:p=\"urn:A\"", 'd' => " xmlns=\"urn:A\"", _ => "" }).collect() };
     let has_a = f[0].chars().chain(f[1].chars()).any(|c| "01pd".contains(c));
